@@ -388,6 +388,7 @@ func num(n int64) string {
 }
 
 var optionalAxioms = []struct{ sym, text string }{
+	{"(isprint ", isprintDef()},
 	{"(ix ", `(declare-fun ix (Int Int) Int)
 (assert (forall ((a Int) (b Int)) (! (= (ix a b) (+ a b)) :pattern ((ix a b)))))
 `},
